@@ -13,6 +13,22 @@ import (
 type executionContext struct {
 	commander  *Commander
 	parameters Parameters
+	// onTerminated holds what must be kept until the log is persisted (or the request has failed):
+	// account locks and the reservation of the transaction reference
+	onTerminated []func()
+}
+
+// keepUntilTerminated registers a release to run once the request is over: after its log has been
+// persisted, or as soon as it fails.
+func (e *executionContext) keepUntilTerminated(release func()) {
+	e.onTerminated = append(e.onTerminated, release)
+}
+
+func (e *executionContext) terminated() {
+	for i := len(e.onTerminated) - 1; i >= 0; i-- {
+		e.onTerminated[i]()
+	}
+	e.onTerminated = nil
 }
 
 func (e *executionContext) AppendLog(ctx context.Context, log *ledger.Log) (*ledger.ChainedLog, chan struct{}, error) {
@@ -52,6 +68,7 @@ func (e *executionContext) run(ctx context.Context, executor func(e *executionCo
 			return nil, err
 		}
 	}
+	defer e.terminated()
 	chainedLog, done, err := executor(e)
 	if err != nil {
 		return nil, err
